@@ -1,4 +1,5 @@
 mod area;
+mod paint;
 mod selection;
 mod binfmt;
 mod fonts;
@@ -47,6 +48,7 @@ fn main() {
         "c20" => gfx::c20(&a),
         "area" => area::area(&a),
         "selection" => selection::selection(&a),
+        "paint" => paint::paint(&a),
         "igs" => igs::igs(&a),
         "rip" => rip::rip(&a),
         other => {
